@@ -196,6 +196,40 @@ def run(ctx):
                 elif rc != 0:
                     res.violations.append(vlib.Violation("-race run failed: %s" % err[:200].decode("latin1"), {"args": args}))
         shutil.rmtree(d, ignore_errors=True)
+        # large adjacent objects (root trees of consecutive commits of ~45 KB each, a 100 KB commit message, a large tag):
+        # buffers handed from the reader goroutine to the aggregation must not be reused while they are still being parsed
+        bigs = S.Scenario()
+        bb = bigs.add({"kind": "blob", "data": b"x"})
+        prev = None
+        for c in range(4):
+            t = bigs.add({"kind": "tree", "entries": [(0o100644, b"f%05d-%d" % (i, c), bb) for i in range(1300)]})
+            prev = bigs.add({"kind": "commit", "tree": t, "parents": [prev] if prev is not None else [], "date": 1000000000 + c,
+                             "msg": (b"m%d " % c) * 30000 + b"\n"})
+        g1 = bigs.add({"kind": "tag", "target": prev, "name": b"big1", "msg": b"t" * 40000 + b"\n"})
+        g2 = bigs.add({"kind": "tag", "target": g1, "name": b"big2", "msg": b"u" * 40000 + b"\n"})
+        bigs.refs += [(b"refs/heads/main", prev), (b"refs/tags/big2", g2)]
+        bigs.compute()
+        d = os.path.join(eng.scratch, "bigobjs")
+        bigs.materialise(d)
+        firstout = None
+        for k in range(4 if quick else 16):
+            env = S.clean_env({"GOMAXPROCS": str([4, 1, 2, 16][k % 4]), "GORACE": "halt_on_error=0 exitcode=66"})
+            rc, out, err = S.run_sizer(race, d, ["--json", "--no-progress"], env=env, timeout=300)
+            nraces += 1
+            res.case(("race-big-objects", k), True)
+            if b"DATA RACE" in err or rc == 66:
+                res.violations.append(vlib.Violation("the race detector reported a data race", {"repository": "4 commits with 1300-entry root trees and 90 KB messages, two 40 KB tags"},
+                                                     observed=err[:1500].decode("latin1")))
+                break
+            if rc != 0:
+                res.violations.append(vlib.Violation("-race run failed: %s" % err[:200].decode("latin1"), {"repository": "large adjacent objects"}))
+                break
+            if firstout is None:
+                firstout = out
+            elif out != firstout:
+                res.violations.append(vlib.Violation("two runs on the same repository produced different stdout", {"repository": "large adjacent objects"}))
+                break
+        shutil.rmtree(d, ignore_errors=True)
         res.coverage_extra["race_detector_runs"] = nraces
     finally:
         eng.close()
